@@ -531,42 +531,14 @@ struct Transport::Impl
         }
       }
 
-      // 2. Invoke global onClose FIRST
-      CloseCallback closeCb;
-      {
-        std::lock_guard<std::mutex> lk(callbackMutex);
-        closeCb = onCloseCb;
-      }
-      if (closeCb)
-      {
-        closeCb(sid, reason);
-      }
-
-      // 3-5. Invoke per-session observers (copy-then-iterate, HR-7)
-      std::vector<std::pair<ObserverId, CloseCallback>> sessionObservers;
-      {
-        std::lock_guard<std::mutex> lk(observerMutex);
-        auto it = observers.find(sid);
-        if (it != observers.end())
-        {
-          sessionObservers = it->second; // Copy
-          // Clean up observer maps
-          for (auto &[obsId, _] : it->second)
-          {
-            observerToSession.erase(obsId);
-          }
-          observers.erase(it);
-        }
-      }
-      for (auto &[obsId, obsCb] : sessionObservers)
-      {
-        if (obsCb)
-        {
-          obsCb(sid, reason);
-        }
-      }
-
-      // 6. Wake pending receiveSync or leave a tombstone for late callers.
+      // 2. Mark the session closed for the synchronous-receive layer FIRST —
+      // BEFORE any user callback learns about the close: wake a pending
+      // receiveSync or leave a tombstone for late callers, and forget the read
+      // mode. From here on setReadMode() sees a closed tombstone and is vacuous,
+      // so no thread that learns about the close from the global onClose
+      // callback or from an observer (or synchronises with one) can still flush
+      // the buffered tail through the data callback AFTER the close callback
+      // has been invoked. The tail stays reachable through receiveSync only.
       // Tombstones prevent a race where onClose fires before setReadMode/
       // receiveSync — without them, receiveSync would wait forever on a
       // closed session. Tombstones are cleaned up by receiveSync when it
@@ -614,6 +586,41 @@ struct Transport::Impl
               ++it;
             }
           }
+        }
+      }
+
+      // 3. Invoke global onClose
+      CloseCallback closeCb;
+      {
+        std::lock_guard<std::mutex> lk(callbackMutex);
+        closeCb = onCloseCb;
+      }
+      if (closeCb)
+      {
+        closeCb(sid, reason);
+      }
+
+      // 4-6. Invoke per-session observers (copy-then-iterate, HR-7)
+      std::vector<std::pair<ObserverId, CloseCallback>> sessionObservers;
+      {
+        std::lock_guard<std::mutex> lk(observerMutex);
+        auto it = observers.find(sid);
+        if (it != observers.end())
+        {
+          sessionObservers = it->second; // Copy
+          // Clean up observer maps
+          for (auto &[obsId, _] : it->second)
+          {
+            observerToSession.erase(obsId);
+          }
+          observers.erase(it);
+        }
+      }
+      for (auto &[obsId, obsCb] : sessionObservers)
+      {
+        if (obsCb)
+        {
+          obsCb(sid, reason);
         }
       }
 
